@@ -223,7 +223,11 @@ def reused_criteria_stream(ctx, n):
         # they mean what the list means
         if not fails:
             try:
-                forms = [('tuple', tuple(fs)), ('generator', (f_ for f_ in fs)), ('map', map(lambda f_: f_, fs))]
+                # ... and criteria that answer with a count (e.g. the number of catalogue positions in the leaf) instead
+                # of True / False: any non-zero count means yes
+                counting = [(lambda f_: (lambda *a_, **k_: (2 if f_(*a_, **k_) else 0)))(f_) for f_ in fs]
+                forms = [('tuple', tuple(fs)), ('generator', (f_ for f_ in fs)), ('map', map(lambda f_: f_, fs)),
+                         ('list of criteria answering 2 / 0', counting)]
                 for name, obj in forms:
                     try:
                         d3 = Dendrogram.compute(arr.copy(), is_independent=obj, **kw)
